@@ -87,12 +87,8 @@ def make_backend(name, w, yield_events=False):
     if name == 'redis':
         import slimta.redisstorage as rs
         from slimta.queue import QueueStorage
-        from fakes.fakeredis import FakeRedis
-        st = object.__new__(rs.RedisStorage)
-        QueueStorage.__init__(st)
-        st.redis = FakeRedis()
-        st.prefix = 'slimta:'
-        st.queue_key = 'slimta:queue'
+        from fakes.fakeredis import make_storage
+        st, _fake = make_storage(w)
         if yield_events:
             st.redis.yield_hook = lambda name: w.env_wait('redis:' + name)
         return st, st.redis
@@ -233,6 +229,8 @@ def judge_last(backend, hist, real, ids):
     op = hist[-1]
     if isinstance(r, tuple) and r and r[0] == 'raised':
         out.append(({'kind': 'operation-raised', 'op': op[0], 'exception': r[1]}, 'history %r: %s raised %s: %s' % (hist, op[0], r[1], r[2])))
+        if op[0] == 'write' or any(l not in ids for l in ref.msgs):
+            return out, ref         # no id to ask the store about
     elif op[0] == 'inc' and r != exp_ret:
         out.append(({'kind': 'increment-returned-wrong-count', 'op': 'inc'}, 'history %r: increment_attempts returned %r, reference %r' % (hist, r, exp_ret)))
     elif op[0] == 'write':
@@ -249,6 +247,7 @@ def judge_last(backend, hist, real, ids):
                 out.append(({'kind': 'removed-message-still-readable', 'op': op[0]}, 'history %r: get(%s) after remove returned %r' % (hist, l, got)))
         elif got != exp:
             what = 'get-raised' if (isinstance(got, tuple) and got and got[0] == 'raised') else \
+                'not-observed' if not (isinstance(got, tuple) and len(got) == 4) else \
                 ['sender', 'content', 'recipients', 'attempts'][[i for i in range(4) if got[i] != exp[i]][0]]
             other = l != op[1] if len(op) > 1 else False
             out.append(({'kind': 'get-differs', 'field': what, 'op': op[0], 'other_message_disturbed': other},
@@ -364,13 +363,21 @@ def load_overlap_case(backend, opB, res):
             st, _ = make_backend(backend, w, yield_events=True)
             ids = {}
 
+            pre = {}
+
             def seq():
-                for l in ('A', 'B', 'C'):
-                    do_op(st, ('write', l), ids)
+                try:
+                    for l in ('A', 'B', 'C'):
+                        do_op(st, ('write', l), ids)
+                except BaseException as e:
+                    pre['exc'] = '%s: %s' % (type(e).__name__, str(e)[:80])
             gevent.spawn(seq)
             w.loop.chooser = None
             w.run_until_quiescent()
             w.loop.chooser = ch
+            if pre or len(ids) < 3:
+                bad.append((list(ch.choices), 'three plain writes one after the other, nothing overlapping: %s' % (pre.get('exc') or 'a write never returned')))
+                return 'prestore-failed'
             rs = {}
 
             def lister():
@@ -542,6 +549,12 @@ def configs(tier, seed):
     for b in ('disk', 'redis', 'cloud'):
         for op in (('rm', 'B'), ('write', 'D'), ('inc', 'B'), ('ts', 'B', T2)):
             cfgs.append({'mode': 'load-overlap', 'backend': b, 'op': list(op)})
+    if tier != 'thorough':
+        # a few overlapping pairs in every run (all 25 in thorough)
+        for b in ('disk', 'redis', 'cloud'):
+            for a, bb in ((('write', 'A'), ('write', 'B')), (('dlv', 'A', (0,)), ('write', 'B')), (('rm', 'A'), ('inc', 'B')),
+                          (('ts', 'A', T1), ('dlv', 'B', (1, 2)))):
+                cfgs.append({'mode': 'overlap', 'backend': b, 'a': list(a), 'b': list(bb)})
     if tier == 'thorough':
         opsA = [('ts', 'A', T1), ('inc', 'A'), ('dlv', 'A', (0,)), ('rm', 'A'), ('write', 'A')]
         opsB = [('ts', 'B', T2), ('inc', 'B'), ('dlv', 'B', (1, 2)), ('rm', 'B'), ('write', 'B')]
